@@ -18,6 +18,7 @@ import (
 	"github.com/ucan-wg/go-ucan/pkg/args"
 	"github.com/ucan-wg/go-ucan/pkg/command"
 	"github.com/ucan-wg/go-ucan/pkg/meta"
+	"github.com/ucan-wg/go-ucan/pkg/policy/limits"
 	"github.com/ucan-wg/go-ucan/token/delegation"
 	"github.com/ucan-wg/go-ucan/token/internal/nonce"
 	"github.com/ucan-wg/go-ucan/token/internal/parse"
@@ -228,7 +229,29 @@ func (t *Token) validate() error {
 		errs = errors.Join(errs, fmt.Errorf("token nonce too small"))
 	}
 
+	// A token that could not be read back must not be constructed either:
+	// decoders require a grammatical command and timestamps that fit 53 bits.
+	if _, err := command.Parse(t.command.String()); err != nil {
+		errs = errors.Join(errs, fmt.Errorf("invalid command: %w", err))
+	}
+	if err := validTimestamp(t.expiration, "expiration"); err != nil {
+		errs = errors.Join(errs, err)
+	}
+	if err := validTimestamp(t.invokedAt, "issued at"); err != nil {
+		errs = errors.Join(errs, err)
+	}
+
 	return errs
+}
+
+func validTimestamp(ts *time.Time, fieldname string) error {
+	if ts == nil {
+		return nil
+	}
+	if sec := ts.Unix(); sec > limits.MaxInt53 || sec < limits.MinInt53 {
+		return fmt.Errorf("%s timestamp %d exceeds safe integer bounds", fieldname, sec)
+	}
+	return nil
 }
 
 func (t *Token) loadProofs(loader delegation.Loader) (res []*delegation.Token, err error) {
